@@ -177,7 +177,25 @@ pub fn run_case(ctx: &Ctx, case: u64, ev: &mut Ev) {
         plant(&mut sp, &mut rng, 0, &mut near, &template);
     }
     let scr = rng.chance(0.5);
-    let t = gen::build::<2>(&sp, &mut rng, scr);
+    let mut t = gen::build::<2>(&sp, &mut rng, scr);
+    // a third of the trees carry cached feasibility states (siblings with equal functions then hold
+    // different witnesses) and index holes from an earlier elimination
+    if rng.chance(0.3) {
+        match lib(case, "history: infeasible_elimination", || {
+            let mut u = t.clone();
+            u.infeasible_elimination();
+            u
+        }) {
+            Ok(u) => {
+                t = u;
+                ev.inc("trees_with_elimination_history");
+            }
+            Err(_) => {
+                ev.skip("elimination panicked while preparing the tree (C04's subject)");
+                return;
+            }
+        }
+    }
     let before = snap(&t);
     ev.evaluations += 1;
     let desc = json!({"before": before.to_json()});
